@@ -22,6 +22,7 @@ done
 for d in seeded/*/; do
   [ -f "$d/patch.diff" ] || continue
   grep -q obsolete_after "$d/meta.json" && continue
+  grep -q '"out_of_scope"' "$d/meta.json" && continue
   prop=$(/venv/bin/python -c "import json,sys; print(json.load(open('$d/meta.json'))['property'])")
   line=$(run_one $d/patch.diff $prop)
   echo "$line" >> $OUT.tmp
